@@ -9,8 +9,10 @@ import (
 	"io"
 	"net/http"
 	"net/http/httptest"
+	"runtime"
 	"strings"
 	"sync"
+	"time"
 
 	"github.com/google/inverting-proxy/agent/banner"
 	"github.com/google/inverting-proxy/agent/websockets"
@@ -140,7 +142,8 @@ func suiteBanner(e *vh.Env) {
 			req.Header.Set("Referer", "http://other.example/")
 		}
 		var ops []hop
-		ct := rng.Pick([]string{"text/html", "text/html", "text/html; charset=utf-8", "application/xhtml+xml", "x; text/html", "application/json", "text/plain", "", "image/png", "text/htm"})
+		ct := rng.Pick([]string{"text/html", "text/html", "text/html; charset=utf-8", "application/xhtml+xml", "x; text/html", "application/json", "text/plain", "", "image/png", "text/htm",
+			"application/json; profile=\"text/html\"", "text/plain; note=application/xhtml+xml"})
 		if ct != "" {
 			ops = append(ops, hop{kind: "S", k: "Content-Type", v: ct})
 		}
@@ -200,7 +203,8 @@ func suiteBanner(e *vh.Env) {
 			}
 			html := false
 			for _, c := range plain.head["Content-Type"] {
-				if strings.Contains(c, "text/html") || strings.Contains(c, "application/xhtml+xml") {
+				mt := strings.SplitN(c, ";", 2)[0] // the media type; a parameter that mentions text/html does not make a document HTML
+				if strings.Contains(mt, "text/html") || strings.Contains(mt, "application/xhtml+xml") {
 					html = true
 				}
 			}
@@ -239,6 +243,72 @@ func suiteBanner(e *vh.Env) {
 			e.Sample(map[string]interface{}{"method": method, "accept": accept, "already_framed": framed, "ops": encOps(ops), "events": got.evs})
 		}
 	}
+	bannerConcurrent(e, n, bannerHTML, height, favicon)
+}
+
+// slowWriter is a ResponseWriter whose Write takes a moment before it looks at the bytes, as the agent's response
+// forwarder does (its Write blocks on a pipe until the uploading goroutine reads).
+type slowWriter struct {
+	hdr  http.Header
+	body []byte
+}
+
+func (w *slowWriter) Header() http.Header { return w.hdr }
+func (w *slowWriter) WriteHeader(int)     {}
+func (w *slowWriter) Write(b []byte) (int, error) {
+	runtime.Gosched()
+	time.Sleep(30 * time.Microsecond)
+	w.body = append(w.body, b...)
+	return len(b), nil
+}
+
+// bannerConcurrent: many banner-eligible requests for different URLs are served at the same time; every frame page
+// must embed the URL of its own request.
+func bannerConcurrent(e *vh.Env, base int, bannerHTML, height, favicon string) {
+	if !e.Want(base) {
+		return
+	}
+	h, _ := banner.Proxy(context.Background(), http.HandlerFunc(func(w http.ResponseWriter, r *http.Request) {
+		w.Header().Set("Content-Type", "text/html")
+		w.WriteHeader(200)
+		w.Write([]byte("<html>page</html>"))
+	}), bannerHTML, height, favicon, nil)
+	workers, per := 8, e.N(300, 5000)
+	var wg sync.WaitGroup
+	var mu sync.Mutex
+	bad, first := 0, ""
+	for g := 0; g < workers; g++ {
+		wg.Add(1)
+		go func(g int) {
+			defer wg.Done()
+			for k := 0; k < per; k++ {
+				target := fmt.Sprintf("/doc/w%02d-%06d?owner=u%02d", g, k, g)
+				req := httptest.NewRequest("GET", "http://host.example"+target, nil)
+				req.Header.Set("Accept", "text/html")
+				w := &slowWriter{hdr: http.Header{}}
+				h.ServeHTTP(w, req)
+				if !bytes.Contains(w.body, []byte(target)) || bytes.Count(w.body, []byte("/doc/w")) != 1 {
+					mu.Lock()
+					bad++
+					if first == "" {
+						i := bytes.Index(w.body, []byte("/doc/w"))
+						emb := ""
+						if i >= 0 {
+							emb = string(w.body[i:minInt(len(w.body), i+30)])
+						}
+						first = fmt.Sprintf("the frame served for %s embeds %q", target, emb)
+					}
+					mu.Unlock()
+				}
+			}
+		}(g)
+	}
+	wg.Wait()
+	if bad > 0 {
+		e.Fail("C14:banner-page-wrong:concurrent", fmt.Sprintf("%d of %d frame pages served concurrently on %d goroutines do not embed the URL of their own request; first: %s", bad, workers*per, workers, first), base, nil, bad, 0)
+	}
+	e.Eval("banner-concurrent", true)
+	e.Count("concurrent-frames")
 }
 
 // segReader returns the scripted segments one per Read.
